@@ -30,6 +30,8 @@ def geometric(case):
     cands += list(itertools.product(Ls, As, Qs))
     # triples whose third (or first) term vanishes: L = -a q^2
     cands += [(-a * q * q, a, q) for a in As for q in Qs] + [(-a, a, q) for a in As for q in Qs]
+    # the same triples at other scales (the criterion is relative: scaling the triple scales the answer)
+    cands += [(L * sc, a * sc, q) for sc in (1e-15, 1e-22, 1e15) for (L, a, q) in [(1.0, 1e-7, 0.5), (1.5, 1.0, 0.75), (0.0, 1.0, 0.5), (-4.0, 16.0, -0.5)]]
     bad = []
     for L, a, q in cands:
         e = (L + a, L + a * q, L + a * q * q)
@@ -132,3 +134,11 @@ def symmetric(case):
             if np.shape(rs) != want or np.shape(as_) != want or (n > 1 and not (np.array_equal(rs, r[:-1]) and np.array_equal(as_, a[1:]))):
                 bad.append(dict(shape=shape, symmetric_output_shapes=(np.shape(rs), np.shape(as_)), expected_shape=want))
     return dict(reproduced=bool(bad), failing=bad[:3], statement='symmetric=True returns result[:-1], abserr[1:] for every leading length > 1')
+
+
+@reg('C13.layouts')
+def layouts(case):
+    from numdifftools.extrapolation import dea3
+    from ndvc.concrete import dea3_layout_cases
+    cnt, bad = dea3_layout_cases(dea3)
+    return dict(reproduced=bool(bad), failing=bad[:3], cases=cnt, statement='dea3 element-wise for every memory layout')
